@@ -79,6 +79,10 @@ class ChainHist(Engine):
                     a['version'] = rng.choice([0, 0, 0, 1, 16])
                     if a['version'] == 0:
                         a['prog'] = gen.rhex(rng, rng.choice([20, 32]))
+            elif r < 0.84:
+                a = {'op': 'parse_crafted', 'rule': rng.choice(['extra-zero-group', 'two-extra-zero-groups', 'nonzero-padding', 'extra-nonzero-group', 'no-version', 'version-17',
+                                                                'program-19', 'program-21', 'program-33', 'program-1', 'program-41', 'upper', 'mixed-prefix', 'longer-prefix', 'shorter-prefix']),
+                     'prog': gen.rhex(rng, 41), 'len': rng.choice([20, 32])}
             elif r < 0.87:
                 a = {'op': 'parse_b58', 'version': rng.choice(['p2pkh', 'p2sh', 'wif', rng.randrange(256)]), 'len': rng.choice([0, 1, 19, 21, 20, 32, 33, 24])
                      , 'payload': gen.rhex(rng, 40)}
@@ -223,6 +227,40 @@ class ChainHist(Engine):
             text = RB58.check_encode(ver, bytes.fromhex(a['payload'])[:a['len']])
             ctx.fault('crafted-base58check')
             self._parse(text, 'b58:%s/%d' % (v if isinstance(v, str) else 'ver', a['len']))
+            return
+        if op == 'parse_crafted':
+            hrp = RC.TABLE[self.chain]['hrp']
+            n = a['len']
+            rule = a['rule']
+            ver = 0
+            if rule.startswith('program-'):
+                n = int(rule.split('-')[1])
+            prog = bytes.fromhex(a['prog'])[:n]
+            d5 = RB32.to5(prog)
+            data = [ver] + d5
+            if rule == 'extra-zero-group':
+                data = data + [0]
+            elif rule == 'two-extra-zero-groups':
+                data = data + [0, 0]
+            elif rule == 'nonzero-padding' and (n * 8) % 5:
+                data[-1] |= 1
+            elif rule == 'extra-nonzero-group':
+                data = data + [1]
+            elif rule == 'no-version':
+                data = d5
+            elif rule == 'version-17':
+                data = [17] + d5
+            if rule == 'longer-prefix':
+                hrp = hrp + 'x'
+            elif rule == 'shorter-prefix':
+                hrp = hrp[:-1]
+            text = hrp + '1' + ''.join(RB32.CHARSET[d] for d in data + RB32.checksum(hrp, data))
+            if rule == 'upper':
+                text = text.upper()
+            elif rule == 'mixed-prefix':
+                text = text[:len(hrp)].upper() + text[len(hrp):]
+            ctx.fault('byzantine-encoder.' + rule)
+            self._parse(text, 'crafted:' + rule)
             return
         if op == 'parse_raw':
             self._parse(a['text'], 'raw')
